@@ -87,7 +87,10 @@ def _slack_case(rng, stream):
             dvs.append(GI.dv(i, 1, rng.choice([None, (0.0, 1.0)])))
         else:
             lo = rng.randint(-3, 2)
-            dvs.append(GI.dv(i, 2, (float(lo), float(lo + rng.randint(0, 4)))))
+            if rng.random() < 0.12:
+                dvs.append(GI.dv(i, 2, None))          # absent bound of an integer variable = unbounded
+            else:
+                dvs.append(GI.dv(i, 2, (float(lo), float(lo + rng.randint(0, 4)))))
     mons = {}
     for _ in range(rng.randint(1, 4)):
         d = rng.choice([1, 1, 2])
@@ -97,8 +100,13 @@ def _slack_case(rng, stream):
         c0 = coef(rng, stream) * rng.choice([1, 2, 3, 6])
         mons[()] = c0
     box = {}
+    unbounded = False
     for d in dvs:
         b = d[2][0] if d[2] else None
+        if b is None and d[1] != 1:
+            unbounded = True
+            box[d[0]] = (Fraction(-10 ** 9), Fraction(10 ** 9))
+            continue
         box[d[0]] = (Fraction(0), Fraction(1)) if b is None else (Fraction(_unf64(b[0])), Fraction(_unf64(b[1])))
     well_conditioned = all(e != 0 for e in exact_interval_ends(sorted(mons.items()), box))
     # un-normalised spellings (repeated ids in a linear part, repeated monomials of a polynomial) for the exact streams
@@ -142,7 +150,10 @@ def gen(rng, tier):
         mx = rng.choice([100000, 100000, 3, 1])
         cases.append({"op": "convert_slack", "input": [inst, target, mx, q], "stream": "convert/%s/%s" % (stream, tag)})
         ub = rng.choice([1, 2, 4, 8, 3, 5])
-        cases.append({"op": "add_slack", "input": [inst, target, ub, q], "stream": "add/%s/%s" % (stream, tag)})
+        # (an unbounded variable is outside the add-slack clause: the coefficient -L/U would be infinite; for the
+        #  conversion it is the "slack range above the limit" rejection)
+        if not any(d[1] == 2 and not d[2] for d in inst[2]):
+            cases.append({"op": "add_slack", "input": [inst, target, ub, q], "stream": "add/%s/%s" % (stream, tag)})
     return cases
 
 
